@@ -217,7 +217,7 @@ class Ctx:
             return None
         k = self.is_known(err.sig)
         if k is not None:
-            self.excluded_known[k] += 1
+            self.excluded_known[err.sig] += 1
             if k not in self.known_witness:
                 self.known_witness[k] = {"body": bodyname, "case": json.loads(dumped), "sig": err.sig, "msg": err.msg[:500]}
             return None
